@@ -308,18 +308,64 @@ class ExtractHelper(ast.NodeTransformer):
         return node
 
 
+_VOCAB = ("min", "max", "abs", "len", "pf", "d", "xs", "sum", "chk", "pair", "any", "all", "zip", "emit", "ys", "zs", "acc")
+
+
+class ExtractValueHelper(ast.NodeTransformer):
+    """v = e  ->  v = _helperN(free names of e), the helper returning e -- written with an early return when e is a conditional expression, and as a
+    loop-free or a looping procedure at random"""
+    def __init__(self):
+        self.helpers = []
+
+    def visit_FunctionDef(self, node):
+        if node.name.startswith("cl") or node.name.startswith("_helper"):
+            return node
+        return self.generic_visit(node)
+
+    def visit_Lambda(self, node):
+        return node
+
+    def visit_Assign(self, node):
+        if not (len(node.targets) == 1 and isinstance(node.targets[0], ast.Name)) or R.random() > 0.5:
+            return node
+        e = node.value
+        if isinstance(e, (ast.Name, ast.Constant, ast.List, ast.Lambda)) or any(isinstance(x, (ast.Lambda, ast.ListComp, ast.GeneratorExp)) for x in ast.walk(e)):
+            return node
+        names = sorted({x.id for x in ast.walk(e) if isinstance(x, ast.Name) and x.id not in _VOCAB and not x.id.startswith("cl")})
+        ExtractHelper.k += 1
+        hn = "_helper%d" % ExtractHelper.k
+        if isinstance(e, ast.IfExp):
+            body = "    if c_:\n        return 1\n    return 2\n"
+        elif R.random() < 0.3:
+            body = "    r_ = 0\n    for i_ in (1,):\n        r_ = 3\n    return r_\n"
+        else:
+            body = "    return 0\n"
+        fd = ast.parse("def %s(%s):\n%s" % (hn, ", ".join(names), body)).body[0]
+        if isinstance(e, ast.IfExp):
+            fd.body[0].test = e.test
+            fd.body[0].body[0].value = e.body
+            fd.body[1].value = e.orelse
+        elif len(fd.body) == 3:
+            fd.body[1].body[0].value = e
+        else:
+            fd.body[0].value = e
+        self.helpers.append(fd)
+        call = ast.Call(func=ast.Name(id=hn, ctx=ast.Load()), args=[ast.Name(id=n, ctx=ast.Load()) for n in names], keywords=[])
+        return ast.Assign(targets=node.targets, value=call)
+
+
 def rewrite(fn):
     """apply a random selection of behaviour-preserving rewrites; returns (new fn, helper defs to register)"""
     f2 = copy.deepcopy(fn)
     helpers = {}
     names = []
     choices = [("T1", nf_twins.T1), ("T3", nf_twins.T3), ("T4", nf_twins.T4), ("T6", nf_twins.T6), ("DeMorgan", DeMorgan), ("NegCompare", NegCompare),
-               ("MinMaxToIf", MinMaxToIf), ("TempIntro", TempIntro), ("IfExpToIf", IfExpToIf), ("ExtractHelper", ExtractHelper)]
+               ("MinMaxToIf", MinMaxToIf), ("TempIntro", TempIntro), ("IfExpToIf", IfExpToIf), ("ExtractHelper", ExtractHelper), ("ExtractValueHelper", ExtractValueHelper)]
     for name, T in R.sample(choices, R.randint(1, 4)):
         t = T()
         f2 = t.generic_visit(f2)
         names.append(name)
-        if name == "ExtractHelper" and t.helpers:
+        if name in ("ExtractHelper", "ExtractValueHelper") and t.helpers:
             f2.body = t.helpers + f2.body
             for h in t.helpers:
                 helpers[h.name] = h
